@@ -79,6 +79,16 @@ pub fn gen_world(rng: &mut Rng, p: &Profile) -> (WorldCfg, u8) {
         rng.shuffle(&mut pool);
         denoms = pool[..nd].iter().map(|s| s.to_string()).collect();
     }
+    // now and then a native denom is spelled exactly like the address of one of the tokens
+    // (token i is instantiated as "contract<i>"): textual asset ids then collide across kinds
+    if nt > 0 && !denoms.is_empty() && rng.chance(12, 100) {
+        let t = rng.below(nt as u64);
+        let alias = format!("contract{}", t);
+        if !denoms.contains(&alias) {
+            let k = rng.pick_idx(denoms.len());
+            denoms[k] = alias;
+        }
+    }
     let tokens: Vec<TokenCfg> = (0..nt)
         .map(|_| TokenCfg {
             decimals: *rng.pick(&[0u8, 6, 6, 6, 8, 12, 18, 18, 3, 9]),
